@@ -974,6 +974,8 @@ class Observer:
                     self.viol["C03"].append("reported connected without successful negotiation (kind=%s success=%s bound=%s resumed=%s legacy=%s hs=%s)" %
                                             (att["kind"], att["success"], att["bound"], att["resumed"], att["legacy_ok"], att["hs"]))
             elif t == "E:raw_connect":
+                if att["kind"] != "raw":
+                    self.viol["C13"].append("raw-connect notification for a %s attempt (no 'connected' can follow from a negotiation that never starts)" % att["kind"])
                 att["rawc"] = True
                 up = True
             elif t.startswith("E:disconnect"):
@@ -1408,6 +1410,30 @@ def userid_scenarios(rng, thorough=False):
             ops += [("run", ("items", [probe])), ("sendst",), ("send",), ("run", None), ("clock", 5), ("run", None)] + runs(*steps[k:]) + [("run", ("items", [probe])), ("run", None)]
             ops += [("is",), ("run", "close"), ("run", None), ("release",)]
             S.append(Scenario(ops, "userid:%s:%d" % (name, k)))
+    return S
+
+
+def refused_call_scenarios(rng, thorough=False):
+    """C13: a second connect call of every kind made on an object whose attempt is in progress -- while the TCP connect
+    is still pending (before the first loop iteration) and at every later stage -- is refused and leaves the accepted
+    attempt alone: the conforming script goes on to the one 'connected' it would have produced anyway."""
+    S = []
+    for name, fl, kind, setup, steps in stage_sessions():
+        if not thorough and name not in ("plain", "legacy", "component"):
+            continue
+        for k in range(-1, len(steps) + 1):
+            for kind2 in ("client", "raw", "component"):
+                for opens in ((False, True) if kind2 == "raw" else (False,)):
+                    again = [("connect", kind2, ["accept"])] + ([("openstream",)] if opens else [])
+                    ops = base_ops(flags=fl) + list(setup) + [("connect", kind, ["accept"])]
+                    if k < 0:
+                        ops += again + [("is",), ("run", None)] + runs(*steps)
+                    else:
+                        ops += [("run", None)] + runs(*steps[:k]) + again + [("is",), ("run", None)] + runs(*steps[k:])
+                    ops += [("is",), ("clock", 20000), ("run", None), ("is",), ("run", "close"), ("run", None), ("release",)]
+                    sc = Scenario(ops, "refused-call:%s:%d:%s%s" % (name, k, kind2, "+open" if opens else ""))
+                    sc.component = kind == "component"      # the JID is the one of the accepted attempt
+                    S.append(sc)
     return S
 
 
